@@ -101,6 +101,13 @@ def gen_cases(rng, tier, scale):
         obs_ops = [o for o in ops + seq if o.split(' ')[0] in ('regs', 'regf', 'r', 'rt')]
         main_idx = [i for i, o in enumerate(obs_ops) if o.startswith('r ') or o.startswith('rt ')]
         cases.append({'line': f'dvroot{kf} ' + ' ; '.join(ops + seq), 'kind': 'entries', 'tpl': tsrc, 'nsetup': 3, 'main_idx': main_idx, 'pi': False, 'tags': ['dev-file-root']})
+    for kp, tsrc in enumerate(['pre:{{v}}', 'pre\n  {{#if v}}\n  y\n  {{/if}}']):
+        Dj = jtok(D2)
+        ops = ['dev 1', f'fw {x("f2")} {x("file:{{v}}")}', f'regf {x("main")} {x("f2")}', f'regt {x("main")} 1 {x(tsrc)}', f'regs {x("other")} {x("o")}']
+        seq = [f'r {e} {x("main")} {Dj} -1' for e in (0, 1, 2, 3)] + [f'rt {e} {x(tsrc)} {Dj} -1' for e in (4, 5, 6, 7)]
+        obs_ops = [o for o in ops + seq if o.split(' ')[0] in ('regs', 'regf', 'regt', 'r', 'rt')]
+        main_idx = [i for i, o in enumerate(obs_ops) if o.startswith('r ') or o.startswith('rt ')]
+        cases.append({'line': f'dvpre{kp} ' + ' ; '.join(ops + seq), 'kind': 'entries', 'tpl': tsrc, 'nsetup': 3, 'main_idx': main_idx, 'pi': False, 'tags': ['dev-precompiled-over-file']})
     # recursion cut off by data, with another partial included before the recursive call inside the block: every entry
     # point (the root is named for 0-3, unnamed for 4-7) renders the same
     TREE = {'name': 'r', 'kids': [{'name': 'a', 'kids': [{'name': 'c', 'kids': []}]}, {'name': 'b', 'kids': []}]}
